@@ -1,5 +1,9 @@
+//@ variant: d0 DEFS=-DXV_DIR=0
+//@ variant: d1 DEFS=-DXV_DIR=1
 //@ tu: tools/xcmrelay/xrelay.c
+//@ defs: $DEFS
 //@ enforce: xfwd_send
+//@ replace: xfwd_handle_term xfwd_handle_err
 //@ props: C20
 //@ expect: postcondition>=6 canary=8
 #include "_unit.h"
@@ -7,14 +11,14 @@ void harness(void)
 {
     xv_ghost_havoc();
     xv_relay_havoc();
-    struct xfwd *relay;
+    XV_RELAY_SETUP;
     xfwd_send(relay);
     if (!xv_bytestream && xv_snd_ret == 0 && xv_snd_len == 65535) XV_CANARY("maximum-size message accepted");
     if (!xv_bytestream && xv_snd_ret == 0 && xv_snd_len == 1) XV_CANARY("one-byte message accepted");
-    if (xv_snd_ret == -1 && xv_snd_errno == EAGAIN) XV_CANARY("back-pressure");
+    if (xv_snd_ret == -1 && xv_snd_errno == EAGAIN && !xv_terminated) XV_CANARY("back-pressure");
     if (xv_bytestream && xv_snd_ret > 0 && (size_t)xv_snd_ret == xv_snd_len) XV_CANARY("all bytes accepted");
     if (xv_bytestream && xv_snd_ret == 1 && xv_snd_len == 65535) XV_CANARY("one byte of many accepted");
-    if (xv_snd_ret == -1 && xv_snd_errno == EPIPE && xv_terminated && xv_cb_frees) XV_CANARY("destination gone, callback destroys the relay");
-    if (xv_snd_ret == -1 && xv_snd_errno == EMSGSIZE && xv_terminated) XV_CANARY("fatal error");
-    if (xv_src == 1 && xv_snd_ret == 0) XV_CANARY("direction 1");
+    if (xv_bytestream && xv_snd_ret == 65534 && xv_snd_len == 65535) XV_CANARY("all but one byte accepted");
+    if (xv_snd_ret == -1 && xv_snd_errno == EPIPE && xv_terminated && xv_fcb_reason == 0) XV_CANARY("destination gone");
+    if (xv_snd_ret == -1 && xv_snd_errno == EMSGSIZE && xv_terminated && xv_fcb_reason == -1) XV_CANARY("fatal error");
 }
